@@ -46,12 +46,15 @@ def run(ctx):
     rng = np.random.default_rng(ctx.seed)
     corpus = inputs.diploid(ctx.seed, k=2 if q else 8)
     events, meta = [], {}
+    kws = [{"max_iterations": 3 if q else 5}, {"max_iterations": 2, "match_segregating_sites": True}]
+    if not q:
+        kws.append({"max_iterations": 3, "rescaling_intervals": 5, "max_shape": 50.0})
     for inp in corpus:
-        kw = {"max_iterations": 3 if q else 5}
+      for ki, kw in enumerate(kws):
         ev, call = ec.observe_vgamma(inp.ts, inp.mu, singletons_phased=True, **kw)
         ctx.evaluations += 1
         if ev is not None:
-            ev["tid"] = f"{inp.name}/phased"
+            ev["tid"] = f"{inp.name}/kw{ki}/phased"
             events.append(ev)
         base_ev, base = ec.observe_vgamma(inp.ts, inp.mu, singletons_phased=False, **kw)
         ctx.evaluations += 1
@@ -71,11 +74,11 @@ def run(ctx):
             b = sorted(zip(call2.ts.mutations_site.tolist(), call2.ts.mutations_node.tolist()))
             ev2["final"]["rephase_equal"] = bool(ok and a == b)
             ev2["final"]["rephase_why"] = why if not ok else ("" if a == b else "mutation placement differs")
-            ev2["tid"] = f"{inp.name}/unphased/rephase{rep}"
+            ev2["tid"] = f"{inp.name}/kw{ki}/unphased/rephase{rep}"
             events.append(ev2)
             if moved:
                 ctx.nontriv(ev2["tid"])
-        base_ev["tid"] = f"{inp.name}/unphased/base"
+        base_ev["tid"] = f"{inp.name}/kw{ki}/unphased/base"
         events.append(base_ev)
     ec.judge_ep(ctx, PID, CHECKS, events, meta, "date")
     ctx.count("calls_traced", len(events))
